@@ -32,6 +32,23 @@ func genAgg(t *rapid.T) Generated {
 		}
 		labels["mixed-keys"] = true
 	}
+	// a large relation with few keys: groups of 65..200 solutions (reducers that work in blocks, sort, or switch
+	// algorithm with the size are exercised beyond their first block)
+	aggSchema := g.Schema
+	if rapid.IntRange(0, 9).Draw(t, "bigGroup") == 0 {
+		g.Schema = append(g.Schema, PredInfo{Name: "b0", Cols: "nn", Level: -1})
+		g.Prog.Decls = append(g.Prog.Decls, Decl{Pred: "b0", Arity: 2})
+		n := rapid.IntRange(66, 200).Draw(t, "nBig")
+		keys := rapid.IntRange(1, 2).Draw(t, "bigKeys")
+		for i := 0; i < n; i++ {
+			g.Extra = append(g.Extra, Atom{Pred: "b0", Args: []Term{Num(int64(i % keys)), Num(int64(i))}})
+		}
+		big := g.Schema[len(g.Schema)-1]
+		aggSchema = append(append([]PredInfo{}, g.Schema...), big, big, big, big)
+		labels["big-group"] = true
+	} else {
+		aggSchema = g.Schema
+	}
 	nHeads := rapid.IntRange(1, 2).Draw(t, "nAggHeads")
 	for h := 0; h < nHeads; h++ {
 		name := fmt.Sprintf("s%d", h)
@@ -42,7 +59,7 @@ func genAgg(t *rapid.T) Generated {
 			labels["same-head-multi"] = true
 		}
 		for k := 0; k < nRules; k++ {
-			r, ok := genAggRule(t, g.Schema, name, nKeys, nRed, labels)
+			r, ok := genAggRule(t, aggSchema, name, nKeys, nRed, labels)
 			if ok {
 				g.Prog.Rules = append(g.Prog.Rules, r)
 			}
